@@ -514,3 +514,33 @@ func vLemmaSwapBytesAppends(buf []byte, hdrs []header, x0, x1 uint32, head, i0, 
 		(chunk2 == chunk || (len(b.chunks) == len(hdrs)+1 && b.chunks[len(hdrs)].Chunk == chunk && int(b.chunks[len(hdrs)].Start) == oldLen && b.chunks[len(hdrs)].Value == uint32(last2))))
 	vAssert("appended-value", len(r3.Bytes()) == len(w) && vForall(0, len(w), func(i int) bool { return r3.Bytes()[i] == w[i] }))
 }
+
+// ---------------------------------------------------------------------------------------------
+// Buffer.RangeChunks (C15, C06): the delegate is told the block of every run of the buffer, in order (a block with
+// several runs is named several times: the caller marks blocks dirty, which is idempotent).
+
+var (
+	vChunksSeen int
+	vChunkLast  Chunk
+)
+
+//@ loop target=commit.(*Buffer).RangeChunks index=0 props=C15,C06
+func vLoopRangeChunks(rangeindex int, rangeslice []header) {
+	vInvariant(-1 <= rangeindex && rangeindex < len(rangeslice) && len(rangeslice) < 1<<20 && vChunksSeen == rangeindex+1)
+	i := vKeepInt(rangeindex) + 1
+	vBody()
+	vStep("block-of-every-run-reported-once-in-order", vChunksSeen == i+1 && vChunkLast == rangeslice[i].Chunk)
+}
+
+//@ lemma props=C15,C06
+func vLemmaRangeChunks(buf []byte, hdrs []header) {
+	vAssume(len(hdrs) < 1<<20)
+	b := &Buffer{buffer: buf, chunks: hdrs}
+	vChunksSeen = 0
+	b.RangeChunks(func(c Chunk) {
+		vAssume(vChunksSeen < 1<<20)
+		vChunksSeen++
+		vChunkLast = c
+	})
+	vAssert("one-report-per-run", vChunksSeen == len(hdrs))
+}
